@@ -130,8 +130,18 @@ def set_module(tree):
     inlined wherever they are called as a whole statement / right-hand side (extract-function
     refactorings must not blind the rules)"""
     MODULE_HELPERS.clear()
+    MODULE_STORES.clear()
     if tree is None:
         return
+    # module-level containers: objects that outlive a call
+    for n in tree.body:
+        tg = n.targets if isinstance(n, ast.Assign) else [n.target] if isinstance(n, ast.AnnAssign) and n.value else []
+        v = getattr(n, 'value', None)
+        if tg and (isinstance(v, (ast.Dict, ast.List, ast.Set, ast.DictComp, ast.ListComp, ast.SetComp))
+                   or (isinstance(v, ast.Call) and ast.unparse(v.func).split('.')[-1] in _CONTAINER_MAKERS)):
+            for t in tg:
+                if isinstance(t, ast.Name):
+                    MODULE_STORES[t.id] = n
     # record types of the subject: Name = _nt('Name', 'a, b, c') / namedtuple(...)
     for n in tree.body:
         if isinstance(n, ast.Assign) and len(n.targets) == 1 and isinstance(n.targets[0], ast.Name) \
@@ -146,6 +156,9 @@ def set_module(tree):
             MODULE_HELPERS[n.name] = n
 
 
+MODULE_STORES = {}
+_CONTAINER_MAKERS = {'dict', 'list', 'set', 'defaultdict', 'OrderedDict', 'WeakValueDictionary', 'WeakKeyDictionary',
+                     'deque', 'Counter', 'ChainMap', 'bytearray', 'local'}
 RECORD_SIGS = {'_Position': ('index', 'line', 'column'), '_PositionInfo': ('start', 'end'),
                '_Traversing': ('parent', 'field', 'child', 'is_finished')}
 
